@@ -50,6 +50,23 @@ func driveConc(seed uint64, n int, size int, em *Emitter) {
 		for i := range cases {
 			cases[i] = genDiffCase(r, size)
 		}
+		// half of the batches build all their EVMs from one configuration value: the same ExtraEips slice (one EIP that does
+		// not exist first, so that the activated list is shorter than the configured one)
+		var shared, sharedOrig []int
+		if b%2 == 0 {
+			all := []int{1344, 1884, 2200, 2929, 3198, 3855, 3860}
+			if b == 0 || r.Chance(70) {
+				shared = append(shared, 9999)
+			}
+			for k := 1 + r.Intn(3); k > 0; k-- {
+				shared = append(shared, all[r.Intn(len(all))])
+			}
+			sharedOrig = append([]int{}, shared...)
+			for _, c := range cases {
+				c.extraEip = shared
+			}
+			em.Count("conc:shared-config")
+		}
 		seq := make([]runOut, len(cases))
 		for i, c := range cases {
 			seq[i] = runFork(c, 2_000_000, true)
@@ -76,6 +93,10 @@ func driveConc(seed uint64, n int, size int, em *Emitter) {
 				v = "differs:" + d
 				break
 			}
+		}
+		if v == "same" && !reflect.DeepEqual(shared, sharedOrig) {
+			v = fmt.Sprintf("caller_configuration_modified:%v->%v", sharedOrig, shared)
+			v = strings.ReplaceAll(v, " ", ",")
 		}
 		em.Op("C17,C16", "S conc-same", v)
 		em.Count(fmt.Sprintf("conc:cases=%d", len(cases)))
